@@ -152,10 +152,7 @@ MutExtendPositions(B, ps) ==
 BitsOfPositions(ps) == MutExtendPositions(<< >>, ps)
 
 \* bit vector obtained by collecting the positions of the ones of B
-TruncAfterLastOne(B) ==
-    LET ones == {q \in 1..Len(B) : B[q] = 1}
-    IN  IF ones = {} THEN << >>
-        ELSE SubSeq(B, 1, CHOOSE q \in ones : \A r \in ones : r <= q)
+TruncAfterLastOne(B) == SubSeq(B, 1, SX!SelectLastInSeq(B, LAMBDA x : x = 1))
 
 ---------------------------------------------------------------------------
 (* Iterators.  A double-ended iterator over S is (f, b): the next front    *)
